@@ -259,13 +259,14 @@ def hlSettle (p : Prog) : Nat → D → D
     else hlSettle p n (HealthDispatch.step p s .act)
 
 /-- run the branch up to and including the result handler; while a handler that outlasts the timeout is pending/running the
-timeout timer is given the chance to fire before every action -/
+timeout timer is given the chance to fire before every action except a `stopTimeout` (the answer of such a check arrives
+well before its timeout: real time passes in the handler only) -/
 def hlToHandler (p : Prog) (blocked : Bool) (len0 : Nat) : Nat → D → D
   | 0, s => s
   | n + 1, s =>
     if s.log.length > len0 || s.todo.isEmpty then s
     else
-      let s := if blocked then HealthDispatch.step p s .fireTimeout else s
+      let s := if blocked && s.todo.head? != some .stopTimeout then HealthDispatch.step p s .fireTimeout else s
       hlToHandler p blocked len0 n (HealthDispatch.step p s .act)
 
 /-- one scripted check on the model: the environment's events in the order the script forces them -/
@@ -274,8 +275,10 @@ def hlCheck (p : Prog) (s : D) (c : Char) (stop : Bool) : D :=
   let s := HealthDispatch.step p s .fireCheck
   let id := s.checkID
   let blocked := c == 'S' || c == 'F' || c == 'a' || c == 'b'
-  let s := if c == 't' || c == 'U' then HealthDispatch.step p s .fireTimeout
-           else HealthDispatch.step p s (.answer id (c == 's' || c == 'S' || c == 'a'))
+  let s := if c == 't' || c == 'U' then HealthDispatch.step p (HealthDispatch.step p s .fireTimeout) .recvTimeout
+           else HealthDispatch.step p s (.answer id (c == 's' || c == 'S' || c == 'a' || c == 'r'))
+  -- r / q: the loop goroutine is held right after the receive of the answer until the timeout timer of this check has fired
+  let s := if c == 'r' || c == 'q' then HealthDispatch.step p s .fireTimeout else s
   let s := hlToHandler p blocked len0 8 s
   -- the handler is running: the timeout of an answered check would expire now
   let s := if blocked then HealthDispatch.step p s .fireTimeout else s
@@ -285,7 +288,7 @@ def hlCheck (p : Prog) (s : D) (c : Char) (stop : Bool) : D :=
 def hlParse : List Char → Option (List (Char × Bool))
   | [] => some []
   | c :: '!' :: r => if c == '!' then none else (hlParse r).map ((c, true) :: ·)
-  | c :: r => if "sfSFabtU".toList.contains c then (hlParse r).map ((c, false) :: ·) else none
+  | c :: r => if "sfSFabtUrq".toList.contains c then (hlParse r).map ((c, false) :: ·) else none
 
 /-- model: segments (one session checker each) through the regenerated loop program and the regenerated handlers -/
 def hlModel (u h : Int) : D → St → List (Char × Bool) → List (Result × Out)
@@ -308,7 +311,7 @@ def hlFmt (l : List (Result × Out)) : String :=
 def hlSpec (u h : Nat) : Bool → List Result → List (Char × Bool) → List (Result × Out)
   | _, _, [] => []
   | unh, rev, (c, stop) :: r =>
-    let res : Result := if c == 's' || c == 'S' || c == 'a' then .success
+    let res : Result := if c == 's' || c == 'S' || c == 'a' || c == 'r' then .success
                         else if c == 't' || c == 'U' then .timeout else .failure
     match HealthCheck.spec u h unh rev [res] with
     | [o] => (res, o) :: (if stop then hlSpec u h o.flagAfter [] r else hlSpec u h o.flagAfter (res :: rev) r)
